@@ -54,6 +54,9 @@ def reuse_part(run):
         nt = 9
         Fm = {1: rng.standard_normal((n, nt)), 2: rng.standard_normal((n, nt)) * 3.0}
         freq = np.array([0.0, 3.0, 11.0, 40.0]) if "FreqDirect" not in name else np.array([3.0, 11.0, 40.0])
+        freq2 = freq.copy()
+        freq2[1:-1] = freq[1:-1] * 1.37            # same length, same end points, other interior frequencies
+        freqs = {1: freq, 2: freq2}
         Fc = {1: rng.standard_normal((n, len(freq))) + 1j * rng.standard_normal((n, len(freq))), 2: rng.standard_normal((n, len(freq))) + 0j}
         d0 = rng.standard_normal(n) * 1e-3
         v0 = rng.standard_normal(n) * 1e-1
@@ -86,7 +89,7 @@ def reuse_part(run):
                     out += [sol.z[key] for key in sorted(sol.z)]
                 return out
             if k == "F":
-                sol = ts.fsolve(Fc[c[1]].copy(), freq, incrb=c[2])
+                sol = ts.fsolve(Fc[c[1]].copy(), freqs[c[3]], incrb=c[2])
                 return [sol.d, sol.v, sol.a]
             if k == "G":
                 F = Fm[c[1]]
